@@ -1,3 +1,156 @@
-From Verif Require Import Base.Prelude Model.C14 Proofs.C14.
-Theorem C14_placeholder : True. Proof. exact I. Qed.
-Print Assumptions C14_placeholder.
+(** C14 — Index metadata queries stay correct across compaction and restart.
+    Property theorems only (statements over the mirror model of Model/C14.v).
+
+    FULL STATEMENT (index_refines_live_series): for every history [ops] of create-series /
+    drop-series (engine style) / drop-measurement / reopen with compaction events at any step,
+    [refines_live (run ops) (spec ops) = true]: measurement names, tag keys per measurement, tag
+    values per key and the series sets of every measurement / tag key / tag value equal those of
+    the live series (series created and not dropped).
+
+    The faithful model REFUTES three clauses of it, and so does the real index (known findings,
+    replayed by the driver on every run):
+      - tag values (and keys) stay listed after all their series were dropped   [..._values_refuted]
+      - keys/values of a dropped measurement survive in older index files and are listed again
+        when the measurement is re-created; the answer depends on the compaction schedule
+                                                                                [..._keys_refuted]
+      - Index.DropMeasurement leaves Partition.seriesIDSet stale; the measurement is then not
+        dropped with its last series and stays listed                          [..._names_refuted]
+    PROVED (unbounded: all file contents, all states, all schedules):
+      - C14_index_refines_live_series_partial: from ANY state in which no tag key carries a
+        tombstone and tombstoned ids are deleted in the series file (checked by the judge on every
+        replayed real history at every observation), ANY sequence of compaction events (roll,
+        log-file compaction at any position, merge of any contiguous run of index files to any
+        level) changes NO answer of any of the six queries, and keeps the state condition;
+      - C14_tag_value_series_characterisation: what TagValueSeriesIDIterator returns after the
+        series-file filter, independently of the tombstone bookkeeping;
+      - C14_log_torn_tail / C14_log_roundtrip / C14_reopen_identity (byte level of the L0 log).
+    MISSING for the full `_partial` over create/drop histories: the induction over the create and
+    drop operations themselves (that the series-set clauses are exact and the listing clauses
+    satisfy  live <= listed <= ever created); that part is established only by the
+    correspondence run, whose oracle is exactly this weakening (Model/C14.v [oracle]). *)
+From Verif Require Import Base.Prelude Model.C14 Proofs.C14_sets Proofs.C14_bytes Proofs.C14_compact
+  Proofs.C14_merge Proofs.C14_events Proofs.C14.
+Local Open Scope N_scope.
+
+(** What append wrote, recovery reads back: for every checksum function with 32-bit results. *)
+Theorem C14_log_roundtrip :
+  forall (crc : list N -> N), (forall l, crc l < 2 ^ 32) ->
+  forall es, Forall wf_entry es -> recover crc (enc_log crc es) = (es, false).
+Proof. exact recover_roundtrip. Qed.
+Print Assumptions C14_log_roundtrip.
+
+(** Torn tail: every truncation of the last log entry — all earlier entries recovered, nothing
+    invented, open does not fail; no property of the checksum is needed (a strict prefix of an
+    entry is always a short buffer). *)
+Theorem C14_log_torn_tail :
+  forall (crc : list N -> N), (forall l, crc l < 2 ^ 32) ->
+  forall es e k, Forall wf_entry es -> wf_entry e -> (k < length (enc_entry crc e))%nat ->
+  recover crc (enc_log crc es ++ firstn k (enc_entry crc e)) = (es, false).
+Proof. exact recover_torn_tail. Qed.
+Print Assumptions C14_log_torn_tail.
+
+(** ... in particular for the CRC-32 the judge computes with. *)
+Theorem C14_log_torn_tail_crc32 :
+  forall es e k, Forall wf_entry es -> wf_entry e -> (k < length (enc_entry crc32 e))%nat ->
+  recover crc32 (enc_log crc32 es ++ firstn k (enc_entry crc32 e)) = (es, false).
+Proof. exact (recover_torn_tail crc32 crc32_range). Qed.
+Print Assumptions C14_log_torn_tail_crc32.
+
+Theorem C14_reopen_identity :
+  forall (crc : list N -> N), (forall l, crc l < 2 ^ 32) -> forall sf maxlog p,
+  (forall f, In f (p_files p) -> f_level f = 0 -> Forall wf_entry (f_log f) /\ replay sf (f_log f) = f) ->
+  (forall f, In f (p_files p) -> f_level f = 0 ->
+     replay sf (fst (recover crc (enc_log crc (f_log f)))) = f) /\
+  let p' := p_reopen sf maxlog p in
+  (p_files p' = p_files p \/ p_files p' = empty_log :: p_files p) /\
+  (forall m, In m (q_meas (p_files p')) <-> In m (q_meas (p_files p))) /\
+  (forall m k, In k (q_keys (p_files p') m) <-> In k (q_keys (p_files p) m)) /\
+  (forall m k v, In v (q_vals (p_files p') m k) <-> In v (q_vals (p_files p) m k)) /\
+  (forall m y, In y (q_mseries (p_files p') m) <-> In y (q_mseries (p_files p) m)) /\
+  (forall m k y, In y (q_kseries (p_files p') m k) <-> In y (q_kseries (p_files p) m k)).
+Proof. exact reopen_identity. Qed.
+Print Assumptions C14_reopen_identity.
+
+(** Compaction at any step, any schedule, changes no answer. *)
+Theorem C14_index_refines_live_series_partial :
+  forall evs st, Forall is_event evs -> st_ok st -> i_cache st = None ->
+  same_answers (fold_left step evs st) st /\ st_ok (fold_left step evs st).
+Proof. exact any_schedule. Qed.
+Print Assumptions C14_index_refines_live_series_partial.
+
+(** One compaction of any contiguous run of files (positions, length, level and contents
+    arbitrary) at file-set level, for each query. *)
+Theorem C14_merge_preserves_file_set_queries :
+  forall lvl run pre post, no_key_tomb run ->
+  let fs' := pre ++ merge_run lvl run :: post in let fs := pre ++ run ++ post in
+  (forall m, In m (q_meas fs') <-> In m (q_meas fs)) /\
+  (forall m k, In k (q_keys fs' m) <-> In k (q_keys fs m)) /\
+  (forall m k v, In v (q_vals fs' m k) <-> In v (q_vals fs m k)) /\
+  (forall m y, In y (q_mseries fs' m) <-> In y (q_mseries fs m)) /\
+  (forall m k y, In y (q_kseries fs' m k) <-> In y (q_kseries fs m k)).
+Proof.
+  intros lvl run pre post NT. pose proof (merge_replaces lvl run NT) as R. cbn zeta.
+  split; [intro; apply splice_meas; exact R|].
+  split; [intros; apply splice_keys; exact R|].
+  split; [intros; apply splice_vals; exact R|].
+  split; [intros; apply splice_mseries; exact R | intros; apply splice_kseries; exact R].
+Qed.
+Print Assumptions C14_merge_preserves_file_set_queries.
+
+Theorem C14_tag_value_series_characterisation :
+  forall st m k v y, i_cache st = None ->
+  (forall p f z, In p (i_parts st) -> In f (p_files p) -> In z (f_ts f) -> In z (i_sdel st)) ->
+  (In y (snd (i_vseries st m k v)) <->
+   not_deleted st y = true /\ exists p f, In p (i_parts st) /\ In f (p_files p) /\ vids_of f m k v y).
+Proof. exact vseries_char. Qed.
+Print Assumptions C14_tag_value_series_characterisation.
+
+(** The boolean state check the judge evaluates on every replayed history implies the
+    hypothesis of the compaction theorems. *)
+Theorem C14_state_check_sound : forall st, st_okb st = true -> st_ok st.
+Proof. exact st_okb_ok. Qed.
+Print Assumptions C14_state_check_sound.
+
+(** Refutations of the full statement (each witness is replayed on the real index). *)
+Theorem C14_index_refines_live_series_values_refuted :
+  exists parts maxlog ops,
+    let st := run_hist parts maxlog ops in let sp := spec_hist ops in
+    refines_live st sp = false /\
+    str_mem v0 (i_vals st m0 k0) = true /\ str_mem v0 (spec_vals sp true m0 k0) = false /\
+    snd (i_vseries st m0 k0 v0) = [].
+Proof. exists 1%nat, 1048576, hist_value. exact tag_values_refuted. Qed.
+Print Assumptions C14_index_refines_live_series_values_refuted.
+
+Theorem C14_index_refines_live_series_keys_refuted :
+  exists parts maxlog ops,
+    let st := run_hist parts maxlog ops in let sp := spec_hist ops in
+    refines_live st sp = false /\
+    str_mem k0 (i_keys st m0) = true /\ str_mem k0 (spec_keys sp true m0) = false.
+Proof. exists 1%nat, 5, hist_keys. exact tag_keys_refuted. Qed.
+Print Assumptions C14_index_refines_live_series_keys_refuted.
+
+(** the same history answers differently under two compaction schedules *)
+Theorem C14_answers_depend_on_schedule_refuted :
+  exists ops, str_mem k0 (i_keys (run_hist 1 5 ops) m0) = true /\
+              str_mem k0 (i_keys (run_hist 1 1048576 ops) m0) = false /\
+              refines_live (run_hist 1 1048576 ops) (spec_hist ops) = true.
+Proof. exists hist_keys. exact schedule_dependence. Qed.
+Print Assumptions C14_answers_depend_on_schedule_refuted.
+
+Theorem C14_index_refines_live_series_names_refuted :
+  exists parts maxlog ops,
+    let st := run_hist parts maxlog ops in let sp := spec_hist ops in
+    refines_live st sp = false /\
+    str_mem m0 (i_meas st) = true /\ spec_meas sp true = [] /\ i_mseries st m0 = [].
+Proof. exists 1%nat, 5, hist_meas. exact measurement_names_refuted. Qed.
+Print Assumptions C14_index_refines_live_series_names_refuted.
+
+(** Non-vacuity: a concrete state after creates, a drop and a re-create with four rolled log
+    files meets the state condition; the policy compacts it to one level-3 file; the listed tag
+    keys are the same before and after. *)
+Example C14_nonvacuous :
+  let st := fold_left step hist_nv (new_index 1 5 false) in
+  st_okb st = true /\ shape st = [[0; 0; 0; 0; 0]] /\
+  shape (settle st) = [[0; 3]] /\
+  i_keys st m0 = [k0; k1] /\ i_keys (settle st) m0 = [k0; k1].
+Proof. exact nonvacuous. Qed.
